@@ -117,7 +117,11 @@ def strip_extras(path: str) -> tuple[Path, str | None]:
 @functools.cache
 def cached_is_dir(path: Path) -> bool:
     """A cached version of `Path.is_dir`."""
-    return path.is_dir()
+    try:
+        return path.is_dir()
+    except OSError:
+        # e.g. a name longer than the file system allows
+        return False
 
 
 @functools.cache
